@@ -12,7 +12,16 @@ Output `C[contents]|R[f:s:t,…]`: contents in order for a list field, sorted fo
 namespace KrroodVerif.Drive.C16
 open KrroodVerif.PD KrroodVerif.Drive.C15
 
+def parseView : List Sexp → Option View
+  | .atom "filt" :: xs => do pure (.filt (← parseNats xs))
+  | [.atom "rev"] => some .rev
+  | [.atom "iter"] => some .iter
+  | .atom "chain" :: xs => do pure (.chain (← parseNats xs))
+  | [.atom "keys"] => some .keys
+  | _ => none
+
 def parseCOp : Sexp → Option COp
+  | .list (.atom "assignView" :: v) => do pure (.assignView (← parseView v))
   | .list [.atom "append", x] => do pure (.append (← x.asNat?))
   | .list [.atom "add", x] => do pure (.append (← x.asNat?))
   | .list (.atom "extend" :: xs) => do pure (.extend (← parseNats xs))
@@ -31,6 +40,21 @@ def showContents (isSet : Bool) (c : List Nat) : String :=
 def elems : COp → List Nat
   | .append x => [x] | .extend xs => xs | .insert _ x => [x] | .setitem _ x => [x]
   | .assign xs => xs | .assignSelf => [] | .iadd xs => xs | .iaddAlias xs => xs
+  | .assignView (.chain xs) => xs | .assignView _ => []
+
+def parseTOp : Sexp → Option TOp
+  | .list [.atom "adopt"] => some .adopt
+  | .list [.atom "A", op] => do pure (.on .A (← parseCOp op))
+  | .list [.atom "B", op] => do pure (.on .B (← parseCOp op))
+  | _ => none
+
+def telems : TOp → List Nat
+  | .on _ op => elems op
+  | .adopt => []
+
+/-- the written field has a super-property field on the same class that `__init__` assigns later -/
+def laterWriteback (S : Schema) (W : World) (f a : Nat) : Bool :=
+  (S.superFields (W.clsOf a) (S.propOf f)).any (· > f)
 
 def run (s : Sexp) : String :=
   match s with
@@ -58,6 +82,39 @@ def run (s : Sexp) : String :=
       -- and no trigger excuses a deviation any more
       s!"model={out Quirks.none}\tspec={spec}\ttrig="
     | _, _, _, _, _, _ => "error=bad-case"
+  | .list (.atom "w2" :: items) =>
+    match parseSchema items, parseWorld items, (Sexp.field? items "ops").bind (·.mapM parseTOp),
+          (Sexp.field? items "field").bind (·.head?) |>.bind Sexp.asNat?,
+          (Sexp.field? items "objA").bind (·.head?) |>.bind Sexp.asNat?,
+          (Sexp.field? items "objB").bind (·.head?) |>.bind Sexp.asNat?,
+          (Sexp.field? items "init").bind parseNats with
+    | some S, some W, some ops, some f, some a, some b, some init =>
+      let isSet := S.kindOf f == .set
+      let wf := f < S.fields.length && a < W.size && b < W.size && a != b && S.kindOf f != .single &&
+        W.clsOf a == W.clsOf b &&
+        (init ++ ops.flatMap telems).all (· < W.size) && ops.all (·.applicable isSet) && twoOk false ops &&
+        W.rt.all (fun r => match r with | some x => x < W.size | none => true)
+      if !wf then "error=ill-formed-case" else
+      let R := schemaRules S W
+      let fuel := fuelFor S W
+      let later := laterWriteback S W f a
+      let hasB := ops.any (· == .adopt)
+      let σ0 : TState := ⟨runC Quirks.none isSet ⟨[], []⟩ (init.map .append), ⟨[], []⟩, false, .A, false⟩
+      let showT (σ : TState) (rels : List Fact) : String :=
+        "A" ++ (showContents isSet σ.a.c).drop 1 ++ "|B" ++
+          (if hasB then (showContents isSet σ.b.c).drop 1 else "[-]") ++ "|" ++ showRels rels
+      let facts (σ : TState) : List Fact := (σ.a.calls.map fun t => (f, a, t)) ++ (σ.b.calls.map fun t => (f, b, t))
+      let out (T : TQuirks) : String :=
+        let σ := runT Quirks.none T later isSet σ0 ops
+        if σ.broke then "exc:AttributeError" else showT σ (PD.run R fuel (facts σ))
+      let sp := specT isSet σ0 ops
+      let cl := closure R fuel (facts sp)
+      let spec := if cl.2 then showT sp cl.1 else "spec-diverged"
+      let asIs := runT Quirks.none TQuirks.asIs later isSet σ0 ops
+      let trig := (if trigAdoptShares ops then ["F-C16-5"] else []) ++ (if asIs.broke then ["F-C16-6"] else [])
+      s!"model={out TQuirks.asIs}\tspec={spec}\ttrig={",".intercalate trig}\tmodel_fixed={out TQuirks.none}" ++
+      s!"\tmodel_fix_share={out ⟨false, true⟩}\tmodel_fix_ctor={out ⟨true, false⟩}"
+    | _, _, _, _, _, _, _ => "error=bad-case"
   | _ => "error=bad-case"
 
 end KrroodVerif.Drive.C16
